@@ -126,7 +126,7 @@ of the `tasksIn sk` requests sent exactly once (none twice: a redelivered event,
 is on record as sent does not send it again; none missing), and nothing is left in the event queue, the reply queue or
 the engine's memory.  (Invariant over the operation list, no bound on its length: `Proofs/Lemmas/CrashSeq.lean`.) -/
 theorem crash_safe_sequences (sk : Sk) (hsk : sk.seq = true) (ops : List Op) (c : Cfg)
-    (hr : run Quirks.none (init sk) (ops.map (fun o => (o, none))) = some c) :
+    (hr : Crash.run Quirks.none (init sk) (ops.map (fun o => (o, none))) = some c) :
     Ended (tasksIn sk) (drain Quirks.none (mu c) c) ∧
       observe (drain Quirks.none (mu c) c) =
         { terminal := true, notes := 1, resent := [], pendingUnsent := [], pendingLost := [], quiet := true } := by
@@ -145,7 +145,7 @@ for less here), no event left, no timer or request pending, and still no correla
 left in the reply queue are replies to requests that were sent (their event acknowledged, their own acknowledgement
 cut off). -/
 theorem no_loss_under_cuts_sequences (sk : Sk) (hsk : sk.seq = true) (sched : Sched) (c : Cfg)
-    (hr : run Quirks.none (init sk) sched = some c) :
+    (hr : Crash.run Quirks.none (init sk) sched = some c) :
     let c' := drain Quirks.none (mu c) c
     c'.evq = [] ∧ 1 ≤ c'.notes ∧ c'.sent.Nodup ∧ c'.timers = [] ∧ c'.pending = [] ∧ nextOp c' = none ∧
       (∀ r ∈ c'.rpq, r.corr ∈ c'.sent) := by
@@ -171,7 +171,7 @@ theorem tasks_seq (N : Nat) : (tasks N).seq = true ∧ tasksIn (tasks N) = N := 
 open Asl.Crash in
 /-- the special case of `N` Task visits in a row (the statement this file started with) -/
 theorem crash_safe_task_sequences (N : Nat) (ops : List Op) (c : Cfg)
-    (hr : run Quirks.none (init (tasks N)) (ops.map (fun o => (o, none))) = some c) :
+    (hr : Crash.run Quirks.none (init (tasks N)) (ops.map (fun o => (o, none))) = some c) :
     Ended N (drain Quirks.none (mu c) c) ∧
       observe (drain Quirks.none (mu c) c) =
         { terminal := true, notes := 1, resent := [], pendingUnsent := [], pendingLost := [], quiet := true } := by
@@ -182,7 +182,7 @@ open Asl.Crash in
 /-- … which is the outcome of the crash-free run (the empty schedule) -/
 theorem crash_free_task_sequences (N : Nat) :
     Ended N (drain Quirks.none (mu (init (tasks N))) (init (tasks N))) :=
-  (crash_safe_task_sequences N [] (init (tasks N)) (by simp [run])).1
+  (crash_safe_task_sequences N [] (init (tasks N)) (by simp [Crash.run])).1
 
 /-! #### (i') fan-outs: Parallel and Map states whose branches are such sequences -/
 
@@ -198,7 +198,7 @@ memory (timers, pending requests, orphans, joins).  The join a crash wiped is re
 held replies; nothing is requested again.  (`Proofs/Lemmas/CrashFlat*.lean`: the invariant `PInv` over the operation list,
 no bound on its length, on the number of branches or on the number of fan-out states.) -/
 theorem crash_safe_flat (sk : Sk) (hsk : sk.flat = true) (ops : List Op) (c : Cfg)
-    (hr : run Quirks.none (init sk) (ops.map (fun o => (o, none))) = some c) :
+    (hr : Crash.run Quirks.none (init sk) (ops.map (fun o => (o, none))) = some c) :
     Ended (tasksIn sk) (drain Quirks.none (mu2 c) c) ∧
       observe (drain Quirks.none (mu2 c) c) =
         { terminal := true, notes := 1, resent := [], pendingUnsent := [], pendingLost := [], quiet := true } := by
@@ -212,7 +212,7 @@ open Asl.Crash in
 between handler invocations anywhere ends, after a crash-free run, with one terminal notification, every request (Task
 visits of all levels, child executions started) sent exactly once and nothing left behind. -/
 def CrashSafe (sk : Sk) : Prop :=
-  ∀ (ops : List Op) (c : Cfg), run Quirks.none (init sk) (ops.map (fun o => (o, none))) = some c →
+  ∀ (ops : List Op) (c : Cfg), Crash.run Quirks.none (init sk) (ops.map (fun o => (o, none))) = some c →
     ∃ fuel, Ended (tasksIn sk) (drain Quirks.none fuel c)
 
 open Asl.Crash in
@@ -246,15 +246,15 @@ open Asl.Crash Witness in
 again — in the crash-safe protocol (the request is on record) and in the engine's (a redelivered event is taken to have
 been requested) -/
 theorem redelivered_retry_not_resent :
-    (run Quirks.none (init retried) schedRetry).map (fun c => (c.sent, (observe (drain Quirks.none 200 c)).resent, (observe (drain Quirks.none 200 c)).terminal)) =
+    (Crash.run Quirks.none (init retried) schedRetry).map (fun c => (c.sent, (observe (drain Quirks.none 200 c)).resent, (observe (drain Quirks.none 200 c)).terminal)) =
       some ([0, 1], [], true) ∧
-    (run Quirks.engine (init retried) schedRetry).map (fun c => (c.sent, (observe (drain Quirks.engine 200 c)).resent, (observe (drain Quirks.engine 200 c)).terminal)) =
+    (Crash.run Quirks.engine (init retried) schedRetry).map (fun c => (c.sent, (observe (drain Quirks.engine 200 c)).resent, (observe (drain Quirks.engine 200 c)).terminal)) =
       some ([0, 1], [], true) := by decide +kernel
 
 open Asl.Crash Witness in
 /-- why `no_loss_under_cuts_sequences` says "at least once": a cut after the terminal notification repeats it -/
 theorem cut_repeats_terminal_notification :
-    (run Quirks.none (init (tasks 1)) schedCutNote).map (fun c => (drain Quirks.none 200 c).notes) = some 2 := by
+    (Crash.run Quirks.none (init (tasks 1)) schedCutNote).map (fun c => (drain Quirks.none 200 c).notes) = some 2 := by
   decide +kernel
 
 /-! ### (ii) each quirk breaks it: the formal counterparts of the open findings C04-F1, C04-F2, C04-F4
@@ -267,7 +267,7 @@ open Asl.Crash
 def nc (op : Op) : Op × Option Nat := (op, none)
 /-- does the run get stuck? (`none`: the schedule is not executable) -/
 def stuckAfter (q : Quirks) (sk : Sk) (sched : Sched) : Option Bool :=
-  (run q (init sk) sched).map (fun c => stuck (drain q 200 c))
+  (Crash.run q (init sk) sched).map (fun c => stuck (drain q 200 c))
 def par2 : Sk := .par 0 (.cons (.task 0 .done) (.cons (.task 0 .done) .nil)) (.step .done)
 def nested : Sk := .par 0 (.cons (.par 0 (.cons (.step .done) .nil) .done) (.cons (.task 0 .done) .nil)) .done
 /-- the Task's event is delivered, the engine dies before the deferred handler sends the request -/
@@ -327,7 +327,7 @@ is harmless: `runW` refuses the first schedule and accepts the second -/
 theorem window_is_tight :
     runW qF1 (init (tasks 1)) [.ev 0, .crash] = none ∧
     (runW qF1 (init (tasks 1)) [.ev 0, .tm 0, .crash]).isSome = true ∧
-    (run qF1 (init (tasks 1)) [nc (.ev 0)]).map inWindow = some true := by decide +kernel
+    (Crash.run qF1 (init (tasks 1)) [nc (.ev 0)]).map inWindow = some true := by decide +kernel
 
 /-! non-vacuity -/
 example : ((BQ.run [.publish 1, .publish 2, .deliver, .deliver, .ack 1, .publish 3]).step .crash).ready
